@@ -107,3 +107,104 @@ PROPS["C16"] = _lib(
     "event was popped; distinct = distinct (probes reached, history length bucket, #event types, #times, first "
     "six operations). The same pop-order oracle also runs online in every simulated run of C01-C08.",
     real=["simulator.EventQueue/Event/EventType", "utils.EventTime"], stub=[])
+
+from . import lib04  # noqa: E402
+
+PROPS["C04"] = _lib(
+    lib04, 20000, 1000000,
+    "seeded operation histories (<=25 operations) over a Resources object (allocate / allocate_multiple / "
+    "deallocate / copy / deepcopy) or a pool of 1-2 workers (place / place-in-batch incl. re-using a BatchStrategy "
+    "after its batch left / remove / load / evict / copy / deepcopy, continuing on the copy or on the original) "
+    "with <=3 types x <=3 instances, quantities 0-3, `any` and id-specific requests, requests above availability "
+    "and removals/evictions of unknown items at arbitrary points (F7); non-trivial = at least one operation "
+    "succeeded; distinct = distinct (mode, probes reached, #workers, vector size, first five operations). The "
+    "in-run clause (idle => full capacity; allocated == demand of residents) is evaluated at every event boundary "
+    "of the simulated runs in the second stream.",
+    real=["workload.Resources/Resource", "workers.Worker/WorkerPool", "workload.BatchStrategy"], stub=[])
+
+
+# ------------------------------------------------------------------ mixed streams
+def _kind(stream):
+    return stream.get("kind", "world") if isinstance(stream, dict) else "world"
+
+
+_MODS = {"lib04": lib04, "lib16": lib16}
+
+
+def any_run(prop, seed, stream):
+    k = _kind(stream)
+    if k == "world":
+        return world_run(prop, seed, stream)
+    return _MODS[k].run(prop, seed, stream)
+
+
+def any_case(prop, seed, stream):
+    k = _kind(stream)
+    c = world_case(prop, seed, stream) if k == "world" else _MODS[k].case(prop, seed, stream)
+    c["_kind"] = k
+    return c
+
+
+def any_run_case(prop, case):
+    k = case.get("_kind", "world")
+    return world_run_case(prop, case) if k == "world" else _MODS[k].run_case(prop, case)
+
+
+def any_shrink(prop, case, v):
+    k = case.get("_kind", "world")
+    c, runs, steps = (world_shrink(prop, case, v) if k == "world" else _MODS[k].shrink_ops(prop, case, v))
+    c["_kind"] = k
+    return c, runs, steps
+
+
+def _mixed(pid, streams):
+    PROPS[pid].update({"streams": streams, "run": any_run, "case": any_case, "run_case": any_run_case,
+                       "shrink": any_shrink})
+    PROPS[pid]["nontrivial"] = lambda r: r["stats"].get("started", 0) > 0
+
+
+L04 = {"kind": "lib04", "profile": "lib"}
+L16 = {"kind": "lib16", "profile": "lib"}
+_mixed("C04", [L04] * 15 + [G, CH])
+_mixed("C16", [L16] * 15 + [G_TIES, CH])
+
+# ------------------------------------------------------------------ planners
+PLAN = {"profile": "plan", "opts": dict(world.PLAN_OPTS)}
+PLAN_ENF = {"profile": "plan", "opts": dict(world.PLAN_OPTS, policy_opts={"enforce_deadlines": True})}
+PLAN_NOCHAOS = {"profile": "plan", "opts": dict(world.PLAN_OPTS, p_solver_chaos=0.0)}
+PLAN_TETRI_G = {"profile": "plan", "opts": dict(world.PLAN_OPTS, p_solver_chaos=0.0, policy="TetriSchedGurobi")}
+PLAN_TETRI_C = {"profile": "plan", "opts": dict(world.PLAN_OPTS, p_solver_chaos=0.0, policy="TetriSchedCPLEX")}
+PLAN_ILP = {"profile": "plan", "opts": dict(world.PLAN_OPTS, policy="ILP")}
+PLAN_ILP_GOODPUT = {"profile": "plan", "opts": dict(world.PLAN_OPTS, policy="ILP", p_solver_chaos=0.0,
+                                                    policy_opts={"goal": "max_goodput", "enforce_deadlines": True})}
+
+_PLAN_REAL = ["schedulers.ILPScheduler / TetriSchedGurobiScheduler / TetriSchedCPLEXScheduler (unmodified)",
+              "Gurobi 13 and CPLEX 22 themselves (size-limited licences)"]
+_PLAN_STUB = ["solver threads forced to 1 and console output off (multiprocessing.cpu_count seam, "
+              "gurobipy.Model.optimize wrapper)",
+              "solver-choice perturbation F6: after the policy's own solve the same model is re-solved under a "
+              "seeded random objective and the policy's own extraction code decodes that feasible point"]
+
+PROPS["C10"] = W([G, PLAN, G_ENF, PLAN, CH], 1200, 40000,
+                 FP_RULE % "a bundled policy was invoked at least once and returned at least one decision",
+                 lambda r: r["probes"].get("invocation_with_decisions", 0) > 0,
+                 real=_PLAN_REAL, stub=_PLAN_STUB, per_run_timeout=120)
+PROPS["C11"] = W([PLAN_ILP, {"profile": "plan", "opts": dict(world.PLAN_OPTS, policy="TetriSchedGurobi")}],
+                 600, 20000,
+                 FP_RULE % "a DAG-aware planner decided a task together with one of its predecessors, or with a "
+                 "running/scheduled predecessor",
+                 lambda r: (r["probes"].get("c11_parent_and_child_codecided", 0) +
+                            r["probes"].get("c11_running_parent", 0) +
+                            r["probes"].get("c11_scheduled_parent", 0)) > 0,
+                 real=_PLAN_REAL, stub=_PLAN_STUB, per_run_timeout=120)
+PROPS["C12"] = W([G_ENF, PLAN_ENF, PLAN_ENF, PLAN_ENF], 800, 30000,
+                 FP_RULE % "a policy with enforce_deadlines decided a task whose deadline is hopeless or exactly tight, "
+                 "or a planner placed a task",
+                 lambda r: (r["probes"].get("c12_hopeless_task", 0) + r["probes"].get("c12_exactly_tight", 0)) > 0
+                 or r["stats"].get("started", 0) > 0,
+                 real=_PLAN_REAL, stub=_PLAN_STUB, per_run_timeout=120)
+PROPS["C14"] = W([PLAN_TETRI_G, PLAN_TETRI_C, PLAN_ILP_GOODPUT], 600, 20000,
+                 FP_RULE % "a planner left an offered task unplaced on an instance inside the enumeration bound "
+                 "(<=4 offered tasks, <=2 workers) so that the reference planner had to search",
+                 lambda r: r["probes"].get("c14_maximality_checked", 0) + r["probes"].get("c14_goodput_checked", 0) > 0,
+                 real=_PLAN_REAL, stub=_PLAN_STUB[:1], per_run_timeout=120)
